@@ -350,6 +350,10 @@ func runCase(c Case) (res vt.Result, fail *vt.Fail) {
 	if err != nil {
 		return res, vt.Failf("harness/snapshot", "%v", err)
 	}
+	if c.PrePop == 0 && !c.Preserve {
+		// the working directory itself does not exist yet when the store is opened
+		os.Remove(s.wd)
+	}
 	store, err := file.New(s.wd)
 	if err != nil {
 		return res, vt.Failf("harness/file-new", "%v", err)
